@@ -5,6 +5,7 @@
 (* validated.                                                                  *)
 EXTENDS Naturals, Sequences, FiniteSets, TLC
 CONSTANTS NS, NV, Batches, Proviso,
+          Getter,    \* TRUE: a second thread retrieves the results of every batch (Proviso = FALSE then)
           Slack      \* track ids are issued in order; a trace may log up to Slack issues late (0 when model checking)
 Shards == 0..(NS-1)
 Voters == 0..(NV-1)
@@ -52,9 +53,22 @@ variables b = 1, todo = {}, i = 0, sc = 0, g = 0, got = 0;
        c_got:  delivered[b] := Append(delivered[b], got); g := g + 1; } };   \* hook c.get.after
    c_next: b := b + 1;
  };
+ c_fin: await ~Getter \/ pc[<<"g", 0>>] = "Done";           \* the client joins its retrieving thread before shutdown
  drop:  vq := [v \in Voters |-> Append(vq[v], <<0, 0>>)];
  join:  await \A v \in Voters : pc[VoterId(v)] = "Done";
  stopw: stop := TRUE;
+}
+
+process (getter = <<"g", 0>>)
+variables gb = 1, gg = 0, ggot = 0;
+{
+ g_loop: while (Getter /\ gb <= NB) {
+   g_get: while (gg < Cardinality(Batches[gb])) {
+            skip;                                      \* hook g.get.before
+     g_recv: await chan[gb] # <<>>; ggot := Head(chan[gb]); chan[gb] := Tail(chan[gb]);
+     g_got:  delivered[gb] := Append(delivered[gb], ggot); gg := gg + 1; };   \* hook g.get.after
+   g_next: gb := gb + 1; gg := 0;
+ };
 }
 
 process (worker \in {WorkerId(s) : s \in Shards})
@@ -94,14 +108,14 @@ variables vme = self[2], job = <<0, 0>>, myid = 0, kind = "none";
 } *)
 \* BEGIN TRANSLATION
 VARIABLES pc, monitor, wq, answered, vq, chan, lock, issued, trackOf, ack, 
-          epoch, sent, delivered, stop, b, todo, i, sc, g, got, me, cmd, vme, 
-          job, myid, kind
+          epoch, sent, delivered, stop, b, todo, i, sc, g, got, gb, gg, ggot, 
+          me, cmd, vme, job, myid, kind
 
 vars == << pc, monitor, wq, answered, vq, chan, lock, issued, trackOf, ack, 
-           epoch, sent, delivered, stop, b, todo, i, sc, g, got, me, cmd, vme, 
-           job, myid, kind >>
+           epoch, sent, delivered, stop, b, todo, i, sc, g, got, gb, gg, ggot, 
+           me, cmd, vme, job, myid, kind >>
 
-ProcSet == {<<"c", 0>>} \cup ({WorkerId(s) : s \in Shards}) \cup ({VoterId(v) : v \in Voters})
+ProcSet == {<<"c", 0>>} \cup {<<"g", 0>>} \cup ({WorkerId(s) : s \in Shards}) \cup ({VoterId(v) : v \in Voters})
 
 Init == (* Global variables *)
         /\ monitor = 0
@@ -124,6 +138,10 @@ Init == (* Global variables *)
         /\ sc = 0
         /\ g = 0
         /\ got = 0
+        (* Process getter *)
+        /\ gb = 1
+        /\ gg = 0
+        /\ ggot = 0
         (* Process worker *)
         /\ me = [self \in {WorkerId(s) : s \in Shards} |-> self[2]]
         /\ cmd = [self \in {WorkerId(s) : s \in Shards} |-> [type |-> "none"]]
@@ -133,23 +151,26 @@ Init == (* Global variables *)
         /\ myid = [self \in {VoterId(v) : v \in Voters} |-> 0]
         /\ kind = [self \in {VoterId(v) : v \in Voters} |-> "none"]
         /\ pc = [self \in ProcSet |-> CASE self = <<"c", 0>> -> "c_loop"
+                                        [] self = <<"g", 0>> -> "g_loop"
                                         [] self \in {WorkerId(s) : s \in Shards} -> "w_loop"
                                         [] self \in {VoterId(v) : v \in Voters} -> "v_loop"]
 
 c_loop == /\ pc[<<"c", 0>>] = "c_loop"
           /\ IF b <= NB
                 THEN /\ pc' = [pc EXCEPT ![<<"c", 0>>] = "p_wait"]
-                ELSE /\ pc' = [pc EXCEPT ![<<"c", 0>>] = "drop"]
+                ELSE /\ pc' = [pc EXCEPT ![<<"c", 0>>] = "c_fin"]
           /\ UNCHANGED << monitor, wq, answered, vq, chan, lock, issued, 
                           trackOf, ack, epoch, sent, delivered, stop, b, todo, 
-                          i, sc, g, got, me, cmd, vme, job, myid, kind >>
+                          i, sc, g, got, gb, gg, ggot, me, cmd, vme, job, myid, 
+                          kind >>
 
 p_wait == /\ pc[<<"c", 0>>] = "p_wait"
           /\ monitor = 0
           /\ pc' = [pc EXCEPT ![<<"c", 0>>] = "p_set"]
           /\ UNCHANGED << monitor, wq, answered, vq, chan, lock, issued, 
                           trackOf, ack, epoch, sent, delivered, stop, b, todo, 
-                          i, sc, g, got, me, cmd, vme, job, myid, kind >>
+                          i, sc, g, got, gb, gg, ggot, me, cmd, vme, job, myid, 
+                          kind >>
 
 p_set == /\ pc[<<"c", 0>>] = "p_set"
          /\ monitor' = Cardinality(Batches[b])
@@ -157,8 +178,8 @@ p_set == /\ pc[<<"c", 0>>] = "p_set"
          /\ i' = 0
          /\ pc' = [pc EXCEPT ![<<"c", 0>>] = "p_scenes"]
          /\ UNCHANGED << wq, answered, vq, chan, lock, issued, trackOf, ack, 
-                         epoch, sent, delivered, stop, b, sc, g, got, me, cmd, 
-                         vme, job, myid, kind >>
+                         epoch, sent, delivered, stop, b, sc, g, got, gb, gg, 
+                         ggot, me, cmd, vme, job, myid, kind >>
 
 p_scenes == /\ pc[<<"c", 0>>] = "p_scenes"
             /\ IF todo # {}
@@ -170,21 +191,23 @@ p_scenes == /\ pc[<<"c", 0>>] = "p_scenes"
                        /\ UNCHANGED << todo, sc >>
             /\ UNCHANGED << monitor, wq, answered, vq, chan, lock, issued, 
                             trackOf, ack, epoch, sent, delivered, stop, b, i, 
-                            g, got, me, cmd, vme, job, myid, kind >>
+                            g, got, gb, gg, ggot, me, cmd, vme, job, myid, 
+                            kind >>
 
 p_epoch == /\ pc[<<"c", 0>>] = "p_epoch"
            /\ epoch' = [epoch EXCEPT ![sc] = epoch[sc] + 1]
            /\ pc' = [pc EXCEPT ![<<"c", 0>>] = "p_enq"]
            /\ UNCHANGED << monitor, wq, answered, vq, chan, lock, issued, 
                            trackOf, ack, sent, delivered, stop, b, todo, i, sc, 
-                           g, got, me, cmd, vme, job, myid, kind >>
+                           g, got, gb, gg, ggot, me, cmd, vme, job, myid, kind >>
 
 p_enq == /\ pc[<<"c", 0>>] = "p_enq"
          /\ TRUE
          /\ pc' = [pc EXCEPT ![<<"c", 0>>] = "p_enq_do"]
          /\ UNCHANGED << monitor, wq, answered, vq, chan, lock, issued, 
                          trackOf, ack, epoch, sent, delivered, stop, b, todo, 
-                         i, sc, g, got, me, cmd, vme, job, myid, kind >>
+                         i, sc, g, got, gb, gg, ggot, me, cmd, vme, job, myid, 
+                         kind >>
 
 p_enq_do == /\ pc[<<"c", 0>>] = "p_enq_do"
             /\ lock = Free
@@ -192,14 +215,16 @@ p_enq_do == /\ pc[<<"c", 0>>] = "p_enq_do"
             /\ pc' = [pc EXCEPT ![<<"c", 0>>] = "p_drain"]
             /\ UNCHANGED << monitor, answered, vq, chan, lock, issued, trackOf, 
                             ack, epoch, sent, delivered, stop, b, todo, i, sc, 
-                            g, got, me, cmd, vme, job, myid, kind >>
+                            g, got, gb, gg, ggot, me, cmd, vme, job, myid, 
+                            kind >>
 
 p_drain == /\ pc[<<"c", 0>>] = "p_drain"
            /\ answered[<<b, sc>>] = NS
            /\ pc' = [pc EXCEPT ![<<"c", 0>>] = "p_disp"]
            /\ UNCHANGED << monitor, wq, answered, vq, chan, lock, issued, 
                            trackOf, ack, epoch, sent, delivered, stop, b, todo, 
-                           i, sc, g, got, me, cmd, vme, job, myid, kind >>
+                           i, sc, g, got, gb, gg, ggot, me, cmd, vme, job, 
+                           myid, kind >>
 
 p_disp == /\ pc[<<"c", 0>>] = "p_disp"
           /\ vq' = [vq EXCEPT ![i % NV] = Append(vq[i % NV], <<b, sc>>)]
@@ -207,7 +232,7 @@ p_disp == /\ pc[<<"c", 0>>] = "p_disp"
           /\ pc' = [pc EXCEPT ![<<"c", 0>>] = "p_scenes"]
           /\ UNCHANGED << monitor, wq, answered, chan, lock, issued, trackOf, 
                           ack, epoch, sent, delivered, stop, b, todo, sc, g, 
-                          got, me, cmd, vme, job, myid, kind >>
+                          got, gb, gg, ggot, me, cmd, vme, job, myid, kind >>
 
 p_exit == /\ pc[<<"c", 0>>] = "p_exit"
           /\ IF Proviso
@@ -217,7 +242,8 @@ p_exit == /\ pc[<<"c", 0>>] = "p_exit"
                      /\ g' = g
           /\ UNCHANGED << monitor, wq, answered, vq, chan, lock, issued, 
                           trackOf, ack, epoch, sent, delivered, stop, b, todo, 
-                          i, sc, got, me, cmd, vme, job, myid, kind >>
+                          i, sc, got, gb, gg, ggot, me, cmd, vme, job, myid, 
+                          kind >>
 
 c_get == /\ pc[<<"c", 0>>] = "c_get"
          /\ IF g < Cardinality(Batches[b])
@@ -226,7 +252,8 @@ c_get == /\ pc[<<"c", 0>>] = "c_get"
                ELSE /\ pc' = [pc EXCEPT ![<<"c", 0>>] = "c_next"]
          /\ UNCHANGED << monitor, wq, answered, vq, chan, lock, issued, 
                          trackOf, ack, epoch, sent, delivered, stop, b, todo, 
-                         i, sc, g, got, me, cmd, vme, job, myid, kind >>
+                         i, sc, g, got, gb, gg, ggot, me, cmd, vme, job, myid, 
+                         kind >>
 
 c_recv == /\ pc[<<"c", 0>>] = "c_recv"
           /\ chan[b] # <<>>
@@ -235,7 +262,7 @@ c_recv == /\ pc[<<"c", 0>>] = "c_recv"
           /\ pc' = [pc EXCEPT ![<<"c", 0>>] = "c_got"]
           /\ UNCHANGED << monitor, wq, answered, vq, lock, issued, trackOf, 
                           ack, epoch, sent, delivered, stop, b, todo, i, sc, g, 
-                          me, cmd, vme, job, myid, kind >>
+                          gb, gg, ggot, me, cmd, vme, job, myid, kind >>
 
 c_got == /\ pc[<<"c", 0>>] = "c_got"
          /\ delivered' = [delivered EXCEPT ![b] = Append(delivered[b], got)]
@@ -243,39 +270,94 @@ c_got == /\ pc[<<"c", 0>>] = "c_got"
          /\ pc' = [pc EXCEPT ![<<"c", 0>>] = "c_get"]
          /\ UNCHANGED << monitor, wq, answered, vq, chan, lock, issued, 
                          trackOf, ack, epoch, sent, stop, b, todo, i, sc, got, 
-                         me, cmd, vme, job, myid, kind >>
+                         gb, gg, ggot, me, cmd, vme, job, myid, kind >>
 
 c_next == /\ pc[<<"c", 0>>] = "c_next"
           /\ b' = b + 1
           /\ pc' = [pc EXCEPT ![<<"c", 0>>] = "c_loop"]
           /\ UNCHANGED << monitor, wq, answered, vq, chan, lock, issued, 
                           trackOf, ack, epoch, sent, delivered, stop, todo, i, 
-                          sc, g, got, me, cmd, vme, job, myid, kind >>
+                          sc, g, got, gb, gg, ggot, me, cmd, vme, job, myid, 
+                          kind >>
+
+c_fin == /\ pc[<<"c", 0>>] = "c_fin"
+         /\ ~Getter \/ pc[<<"g", 0>>] = "Done"
+         /\ pc' = [pc EXCEPT ![<<"c", 0>>] = "drop"]
+         /\ UNCHANGED << monitor, wq, answered, vq, chan, lock, issued, 
+                         trackOf, ack, epoch, sent, delivered, stop, b, todo, 
+                         i, sc, g, got, gb, gg, ggot, me, cmd, vme, job, myid, 
+                         kind >>
 
 drop == /\ pc[<<"c", 0>>] = "drop"
         /\ vq' = [v \in Voters |-> Append(vq[v], <<0, 0>>)]
         /\ pc' = [pc EXCEPT ![<<"c", 0>>] = "join"]
         /\ UNCHANGED << monitor, wq, answered, chan, lock, issued, trackOf, 
                         ack, epoch, sent, delivered, stop, b, todo, i, sc, g, 
-                        got, me, cmd, vme, job, myid, kind >>
+                        got, gb, gg, ggot, me, cmd, vme, job, myid, kind >>
 
 join == /\ pc[<<"c", 0>>] = "join"
         /\ \A v \in Voters : pc[VoterId(v)] = "Done"
         /\ pc' = [pc EXCEPT ![<<"c", 0>>] = "stopw"]
         /\ UNCHANGED << monitor, wq, answered, vq, chan, lock, issued, trackOf, 
                         ack, epoch, sent, delivered, stop, b, todo, i, sc, g, 
-                        got, me, cmd, vme, job, myid, kind >>
+                        got, gb, gg, ggot, me, cmd, vme, job, myid, kind >>
 
 stopw == /\ pc[<<"c", 0>>] = "stopw"
          /\ stop' = TRUE
          /\ pc' = [pc EXCEPT ![<<"c", 0>>] = "Done"]
          /\ UNCHANGED << monitor, wq, answered, vq, chan, lock, issued, 
                          trackOf, ack, epoch, sent, delivered, b, todo, i, sc, 
-                         g, got, me, cmd, vme, job, myid, kind >>
+                         g, got, gb, gg, ggot, me, cmd, vme, job, myid, kind >>
 
 client == c_loop \/ p_wait \/ p_set \/ p_scenes \/ p_epoch \/ p_enq
              \/ p_enq_do \/ p_drain \/ p_disp \/ p_exit \/ c_get \/ c_recv
-             \/ c_got \/ c_next \/ drop \/ join \/ stopw
+             \/ c_got \/ c_next \/ c_fin \/ drop \/ join \/ stopw
+
+g_loop == /\ pc[<<"g", 0>>] = "g_loop"
+          /\ IF Getter /\ gb <= NB
+                THEN /\ pc' = [pc EXCEPT ![<<"g", 0>>] = "g_get"]
+                ELSE /\ pc' = [pc EXCEPT ![<<"g", 0>>] = "Done"]
+          /\ UNCHANGED << monitor, wq, answered, vq, chan, lock, issued, 
+                          trackOf, ack, epoch, sent, delivered, stop, b, todo, 
+                          i, sc, g, got, gb, gg, ggot, me, cmd, vme, job, myid, 
+                          kind >>
+
+g_get == /\ pc[<<"g", 0>>] = "g_get"
+         /\ IF gg < Cardinality(Batches[gb])
+               THEN /\ TRUE
+                    /\ pc' = [pc EXCEPT ![<<"g", 0>>] = "g_recv"]
+               ELSE /\ pc' = [pc EXCEPT ![<<"g", 0>>] = "g_next"]
+         /\ UNCHANGED << monitor, wq, answered, vq, chan, lock, issued, 
+                         trackOf, ack, epoch, sent, delivered, stop, b, todo, 
+                         i, sc, g, got, gb, gg, ggot, me, cmd, vme, job, myid, 
+                         kind >>
+
+g_recv == /\ pc[<<"g", 0>>] = "g_recv"
+          /\ chan[gb] # <<>>
+          /\ ggot' = Head(chan[gb])
+          /\ chan' = [chan EXCEPT ![gb] = Tail(chan[gb])]
+          /\ pc' = [pc EXCEPT ![<<"g", 0>>] = "g_got"]
+          /\ UNCHANGED << monitor, wq, answered, vq, lock, issued, trackOf, 
+                          ack, epoch, sent, delivered, stop, b, todo, i, sc, g, 
+                          got, gb, gg, me, cmd, vme, job, myid, kind >>
+
+g_got == /\ pc[<<"g", 0>>] = "g_got"
+         /\ delivered' = [delivered EXCEPT ![gb] = Append(delivered[gb], ggot)]
+         /\ gg' = gg + 1
+         /\ pc' = [pc EXCEPT ![<<"g", 0>>] = "g_get"]
+         /\ UNCHANGED << monitor, wq, answered, vq, chan, lock, issued, 
+                         trackOf, ack, epoch, sent, stop, b, todo, i, sc, g, 
+                         got, gb, ggot, me, cmd, vme, job, myid, kind >>
+
+g_next == /\ pc[<<"g", 0>>] = "g_next"
+          /\ gb' = gb + 1
+          /\ gg' = 0
+          /\ pc' = [pc EXCEPT ![<<"g", 0>>] = "g_loop"]
+          /\ UNCHANGED << monitor, wq, answered, vq, chan, lock, issued, 
+                          trackOf, ack, epoch, sent, delivered, stop, b, todo, 
+                          i, sc, g, got, ggot, me, cmd, vme, job, myid, kind >>
+
+getter == g_loop \/ g_get \/ g_recv \/ g_got \/ g_next
 
 w_loop(self) == /\ pc[self] = "w_loop"
                 /\ IF ~stop \/ wq[me[self]] # <<>>
@@ -283,8 +365,8 @@ w_loop(self) == /\ pc[self] = "w_loop"
                       ELSE /\ pc' = [pc EXCEPT ![self] = "Done"]
                 /\ UNCHANGED << monitor, wq, answered, vq, chan, lock, issued, 
                                 trackOf, ack, epoch, sent, delivered, stop, b, 
-                                todo, i, sc, g, got, me, cmd, vme, job, myid, 
-                                kind >>
+                                todo, i, sc, g, got, gb, gg, ggot, me, cmd, 
+                                vme, job, myid, kind >>
 
 w_step(self) == /\ pc[self] = "w_step"
                 /\ wq[me[self]] # <<>> \/ stop
@@ -301,7 +383,7 @@ w_step(self) == /\ pc[self] = "w_step"
                 /\ pc' = [pc EXCEPT ![self] = "w_loop"]
                 /\ UNCHANGED << monitor, vq, chan, lock, issued, trackOf, 
                                 epoch, sent, delivered, stop, b, todo, i, sc, 
-                                g, got, me, vme, job, myid, kind >>
+                                g, got, gb, gg, ggot, me, vme, job, myid, kind >>
 
 worker(self) == w_loop(self) \/ w_step(self)
 
@@ -309,8 +391,8 @@ v_loop(self) == /\ pc[self] = "v_loop"
                 /\ pc' = [pc EXCEPT ![self] = "v_start"]
                 /\ UNCHANGED << monitor, wq, answered, vq, chan, lock, issued, 
                                 trackOf, ack, epoch, sent, delivered, stop, b, 
-                                todo, i, sc, g, got, me, cmd, vme, job, myid, 
-                                kind >>
+                                todo, i, sc, g, got, gb, gg, ggot, me, cmd, 
+                                vme, job, myid, kind >>
 
 v_start(self) == /\ pc[self] = "v_start"
                  /\ vq[vme[self]] # <<>>
@@ -321,7 +403,8 @@ v_start(self) == /\ pc[self] = "v_start"
                        ELSE /\ pc' = [pc EXCEPT ![self] = "v_tid"]
                  /\ UNCHANGED << monitor, wq, answered, chan, lock, issued, 
                                  trackOf, ack, epoch, sent, delivered, stop, b, 
-                                 todo, i, sc, g, got, me, cmd, vme, myid, kind >>
+                                 todo, i, sc, g, got, gb, gg, ggot, me, cmd, 
+                                 vme, myid, kind >>
 
 v_tid(self) == /\ pc[self] = "v_tid"
                /\ \E t \in (1..(Cardinality(issued) + 1 + Slack)) \ issued:
@@ -330,14 +413,16 @@ v_tid(self) == /\ pc[self] = "v_tid"
                /\ pc' = [pc EXCEPT ![self] = "v_write"]
                /\ UNCHANGED << monitor, wq, answered, vq, chan, lock, trackOf, 
                                ack, epoch, sent, delivered, stop, b, todo, i, 
-                               sc, g, got, me, cmd, vme, job, kind >>
+                               sc, g, got, gb, gg, ggot, me, cmd, vme, job, 
+                               kind >>
 
 v_write(self) == /\ pc[self] = "v_write"
                  /\ kind' = [kind EXCEPT ![self] = IF trackOf[job[self][2]] = 0 THEN "add" ELSE "merge"]
                  /\ pc' = [pc EXCEPT ![self] = "v_write_do"]
                  /\ UNCHANGED << monitor, wq, answered, vq, chan, lock, issued, 
                                  trackOf, ack, epoch, sent, delivered, stop, b, 
-                                 todo, i, sc, g, got, me, cmd, vme, job, myid >>
+                                 todo, i, sc, g, got, gb, gg, ggot, me, cmd, 
+                                 vme, job, myid >>
 
 v_write_do(self) == /\ pc[self] = "v_write_do"
                     /\ lock = Free
@@ -352,7 +437,8 @@ v_write_do(self) == /\ pc[self] = "v_write_do"
                                /\ UNCHANGED trackOf
                     /\ UNCHANGED << monitor, answered, vq, chan, issued, ack, 
                                     epoch, sent, delivered, stop, b, todo, i, 
-                                    sc, g, got, me, cmd, vme, job, myid, kind >>
+                                    sc, g, got, gb, gg, ggot, me, cmd, vme, 
+                                    job, myid, kind >>
 
 v_mwait(self) == /\ pc[self] = "v_mwait"
                  /\ ack[vme[self]]
@@ -361,24 +447,24 @@ v_mwait(self) == /\ pc[self] = "v_mwait"
                  /\ pc' = [pc EXCEPT ![self] = "v_mdone"]
                  /\ UNCHANGED << monitor, wq, answered, vq, chan, issued, 
                                  trackOf, epoch, sent, delivered, stop, b, 
-                                 todo, i, sc, g, got, me, cmd, vme, job, myid, 
-                                 kind >>
+                                 todo, i, sc, g, got, gb, gg, ggot, me, cmd, 
+                                 vme, job, myid, kind >>
 
 v_mdone(self) == /\ pc[self] = "v_mdone"
                  /\ TRUE
                  /\ pc' = [pc EXCEPT ![self] = "v_send"]
                  /\ UNCHANGED << monitor, wq, answered, vq, chan, lock, issued, 
                                  trackOf, ack, epoch, sent, delivered, stop, b, 
-                                 todo, i, sc, g, got, me, cmd, vme, job, myid, 
-                                 kind >>
+                                 todo, i, sc, g, got, gb, gg, ggot, me, cmd, 
+                                 vme, job, myid, kind >>
 
 v_send(self) == /\ pc[self] = "v_send"
                 /\ TRUE
                 /\ pc' = [pc EXCEPT ![self] = "v_send_do"]
                 /\ UNCHANGED << monitor, wq, answered, vq, chan, lock, issued, 
                                 trackOf, ack, epoch, sent, delivered, stop, b, 
-                                todo, i, sc, g, got, me, cmd, vme, job, myid, 
-                                kind >>
+                                todo, i, sc, g, got, gb, gg, ggot, me, cmd, 
+                                vme, job, myid, kind >>
 
 v_send_do(self) == /\ pc[self] = "v_send_do"
                    /\ Len(chan[job[self][1]]) < 1
@@ -387,23 +473,24 @@ v_send_do(self) == /\ pc[self] = "v_send_do"
                    /\ pc' = [pc EXCEPT ![self] = "v_sent"]
                    /\ UNCHANGED << monitor, wq, answered, vq, lock, issued, 
                                    trackOf, ack, epoch, delivered, stop, b, 
-                                   todo, i, sc, g, got, me, cmd, vme, job, 
-                                   myid, kind >>
+                                   todo, i, sc, g, got, gb, gg, ggot, me, cmd, 
+                                   vme, job, myid, kind >>
 
 v_sent(self) == /\ pc[self] = "v_sent"
                 /\ TRUE
                 /\ pc' = [pc EXCEPT ![self] = "v_dec"]
                 /\ UNCHANGED << monitor, wq, answered, vq, chan, lock, issued, 
                                 trackOf, ack, epoch, sent, delivered, stop, b, 
-                                todo, i, sc, g, got, me, cmd, vme, job, myid, 
-                                kind >>
+                                todo, i, sc, g, got, gb, gg, ggot, me, cmd, 
+                                vme, job, myid, kind >>
 
 v_dec(self) == /\ pc[self] = "v_dec"
                /\ monitor' = monitor - 1
                /\ pc' = [pc EXCEPT ![self] = "v_loop"]
                /\ UNCHANGED << wq, answered, vq, chan, lock, issued, trackOf, 
                                ack, epoch, sent, delivered, stop, b, todo, i, 
-                               sc, g, got, me, cmd, vme, job, myid, kind >>
+                               sc, g, got, gb, gg, ggot, me, cmd, vme, job, 
+                               myid, kind >>
 
 voter(self) == v_loop(self) \/ v_start(self) \/ v_tid(self)
                   \/ v_write(self) \/ v_write_do(self) \/ v_mwait(self)
@@ -414,7 +501,7 @@ voter(self) == v_loop(self) \/ v_start(self) \/ v_tid(self)
 Terminating == /\ \A self \in ProcSet: pc[self] = "Done"
                /\ UNCHANGED vars
 
-Next == client
+Next == client \/ getter
            \/ (\E self \in {WorkerId(s) : s \in Shards}: worker(self))
            \/ (\E self \in {VoterId(v) : v \in Voters}: voter(self))
            \/ Terminating
